@@ -105,6 +105,9 @@ func mint(c *Ctx, r recipe) minted {
 		EndTime:   r.end,
 		CAddr:     r.caddr,
 	}
+	if forcedAuthData != nil {
+		etp.AuthorizationData = forcedAuthData
+	}
 	b, err := asn1.Marshal(etp)
 	if err != nil {
 		panic(err)
